@@ -636,6 +636,16 @@ module SyncA :
 
   val free_shadow_spki : z -> variant -> spki_table -> unit m
 
+  type prep =
+  | Early of sync_out
+  | Go of ((nat * nat) * nat) * table option
+
+  val sync_prepare_m : nat -> n -> bool -> OpsA.tabs -> upd list -> prep m
+
+  val sync_rest_m :
+    (z -> z) -> z -> n -> z -> variant -> OpsA.tabs -> upd list ->
+    ((nat * nat) * nat) -> table option -> sync_out m
+
   val sync_m :
     (z -> z) -> z -> nat -> n -> z -> variant -> bool -> OpsA.tabs -> upd
     list -> sync_out m
